@@ -146,6 +146,39 @@ def prog(env, case):
     for c in gens:
         env.check_eq(den_expr(c.expression, P, {}), 0, "a partition constraint fails on real coordinate-block projections",
                      signature=tag + ":real-projections")
+    # ---- a later solve after more points were decomposed: again the complete set, each relation once -------------
+    if case.get('twice') and d > 1:
+        extra_pt = pool[(ch(len(pool), 'later-point'))]
+        part.get_block(extra_pt, 0)
+        if not any(extra_pt is y for y in decomposed):
+            decomposed.append(extra_pt)
+        blocks_of[id(extra_pt)] = [part.get_block(extra_pt, k) for k in range(d)]
+        part.add_partition_constraints()
+        gens2 = list(part.list_of_constraints)
+        g2 = [dict(canon(c.expression)) for c in gens2]
+        items2 = [(x, k) for x in decomposed for k in range(d)]
+        used2 = [False] * len(gens2)
+        missing2 = 0
+        for (x, k), (y, l) in itertools.combinations_with_replacement(items2, 2):
+            if k == l or (x is y and k > l):
+                continue
+            rf = dict(canon(blocks_of[id(x)][k] * blocks_of[id(y)][l]))
+            if trivial(env, rf):
+                continue
+            hit = None
+            for gi, c in enumerate(gens2):
+                if not used2[gi] and same_form(env, g2[gi], rf, True):
+                    hit = gi
+                    break
+            if hit is None:
+                missing2 += 1
+            else:
+                used2[hit] = True
+        env.check(missing2 == 0, "scenario %s + a point decomposed after a first solve: %d orthogonality relation(s) are not "
+                  "imposed at the second solve" % (trace, missing2), signature=tag + ":missing-orthogonality-second-solve")
+        extra2 = [gens2[gi] for gi in range(len(gens2)) if not used2[gi] and not trivial(env, g2[gi])]
+        env.check(not extra2, "scenario %s: %d duplicated / foreign partition constraint(s) at the second solve"
+                  % (trace, len(extra2)), signature=tag + ":extra-constraints-second-solve")
     return trace
 
 
@@ -159,6 +192,8 @@ def cases(tier):
             else:
                 for blk in range(d):        # (point, block) of the first request: finer cases = better load balance
                     cs.append(dict(id="d%d-first%d-%d" % (d, first, blk), d=d, npts=npts, forced=[first, blk], ncoord=3))
+            if d == 2:
+                cs.append(dict(id="d2-twice-first%d" % first, d=2, npts=2, forced=[first], ncoord=3, twice=True))
     return cs
 
 
